@@ -111,6 +111,64 @@ example := Theorems.C13.C13_wrap_union_self (F := Int) wf_d0 {} rfl hashInj_d0 q
 example := Theorems.C13.C13_wrap_not_not (F := Int) d0 {} .nil .nil .nil planR (.node 6)
   (.inl ⟨[.attr 2 0, .attr 4 0], by simp only [planR]; sel_decide⟩)
 
+/-! ## iterator level: the context node after a `Select` (`Model/Pull2`) -/
+
+/-- `/r/*[. is b]`: the filter rejects `a` (node 2) and keeps `b` (node 4) -/
+def qCtxF : PQ2 := .filter (.child (chE "") (.child (chE "r") (.absolute 0) none 0) none 0) .nil 0 none
+def decCtx : Plan → Ref → Bool := fun _ n => n == .node 4
+/-- the merge rewrite of `/r/a`: per parent `r`, the children `a` -/
+def qCtxM : PQ2 := .merge (.child (chE "r") (.absolute 0) none 0) (.child (chE "a") (.context 0) none 0) none
+/-- `/r/a/@x/following::*` (non-sibling; the input node is an attribute: the walk starts in the owner) -/
+def qCtxFol : PQ2 :=
+  .following (axE "following" "") false
+    (.attr (atA "x") (.child (chE "a") (.child (chE "r") (.absolute 0) none 0) none 0) none) none 0
+/-- `/r/a/preceding::*` (non-sibling), exhausted at once: `a[1]` has nothing before it but ancestors …
+then `a[2]` reports `b` -/
+def qCtxPrec : PQ2 := .preceding (axE "preceding" "") false (.child (chE "a") (.child (chE "r") (.absolute 0) none 0) none 0) none 0
+/-- a union whose right operand is the filter -/
+def qCtxU : PQ2 := .union (.child (chE "r") (.absolute 0) none 0) qCtxF none
+
+/-- the candidates were visited (the first one rejected), the answer is `b`, and `t.Current()` is
+still the comment node the evaluation started at — for each of the repaired types -/
+example : (PQ2.select d0 {} decCtx 100 qCtxF (.node 7)).1 = .yield (.node 4) ∧
+    (PQ2.select d0 {} decCtx 100 qCtxF (.node 7)).2.2 = .node 7 := by decide +kernel
+example : (PQ2.select d0 {} decCtx 100 qCtxM (.node 7)).1 = .yield (.node 2) ∧
+    (PQ2.select d0 {} decCtx 100 qCtxM (.node 7)).2.2 = .node 7 := by decide +kernel
+example : (PQ2.select d0 {} decCtx 100 qCtxFol (.node 7)).1 = .yield (.node 4) ∧
+    (PQ2.select d0 {} decCtx 100 qCtxFol (.node 7)).2.2 = .node 7 := by decide +kernel
+example : (PQ2.select d0 {} decCtx 100 qCtxPrec (.node 7)).1 = .yield (.node 4) ∧
+    (PQ2.select d0 {} decCtx 100 qCtxPrec (.node 7)).2.2 = .node 7 := by decide +kernel
+example : (PQ2.select d0 {} decCtx 100 qCtxU (.node 7)).1 = .yield (.node 1) ∧
+    (PQ2.select d0 {} decCtx 100 qCtxU (.node 7)).2.2 = .node 7 := by decide +kernel
+
+/-- **`C13_select_leaves_context_node`** (`h : PQ2.select … = (out, q', cur')`, `out ≠ .fuel`) at these
+machines -/
+example := Theorems.C13.C13_select_leaves_context_node d0 {} decCtx 100 qCtxF (.node 7) _ _ _
+  (triple_eq (a := .yield (.node 4)) (by decide +kernel)) (by simp)
+example := Theorems.C13.C13_select_leaves_context_node d0 {} decCtx 100 qCtxM (.node 7) _ _ _
+  (triple_eq (a := .yield (.node 2)) (by decide +kernel)) (by simp)
+example := Theorems.C13.C13_select_leaves_context_node d0 {} decCtx 100 qCtxFol (.node 7) _ _ _
+  (triple_eq (a := .yield (.node 4)) (by decide +kernel)) (by simp)
+example := Theorems.C13.C13_select_leaves_context_node d0 {} decCtx 100 qCtxPrec (.node 7) _ _ _
+  (triple_eq (a := .yield (.node 4)) (by decide +kernel)) (by simp)
+example := Theorems.C13.C13_select_leaves_context_node d0 {} decCtx 100 qCtxU (.node 7) _ _ _
+  (triple_eq (a := .yield (.node 1)) (by decide +kernel)) (by simp)
+
+/-- the filter over `/r/zzz`: exhausted at once -/
+def qCtxZ : PQ2 := .filter (.child (chE "zzz") (.child (chE "r") (.absolute 0) none 0) none 0) .nil 0 none
+
+/-- **`C13_moveNext_false_leaves_context_node`** (`h : PQ2.moveNext … = some (false, q', cur')`) -/
+example : ∃ q' cur', PQ2.moveNext d0 {} decCtx 100 qCtxZ (.node 7) = some (false, q', cur') ∧ cur' = .node 7 := by
+  have h : (PQ2.moveNext d0 {} decCtx 100 qCtxZ (.node 7)).map (·.1) = some false := by decide +kernel
+  cases hm : PQ2.moveNext d0 {} decCtx 100 qCtxZ (.node 7) with
+  | none => rw [hm] at h; cases h
+  | some r =>
+    obtain ⟨b, q', c'⟩ := r
+    rw [hm] at h
+    simp only [Option.map_some, Option.some.injEq] at h
+    subst h
+    exact ⟨q', c', rfl, Theorems.C13.C13_moveNext_false_leaves_context_node d0 {} decCtx 100 qCtxZ (.node 7) q' c' hm⟩
+
 end XPathV.Theorems.NonVacuity.C13
 
 section AxiomAudit
